@@ -54,6 +54,7 @@ class Registry:
         self.modules: set[str] = set()
         self.class_invariants: dict[str, list[str]] = {}
         self.opaque_classes: dict[str, dict[str, str]] = {}
+        self.opaque_methods: dict[str, dict[str, str]] = {}
 
     def contract(self, target: str, **kw) -> Contract:
         loops = kw.pop("loops", {})
@@ -76,9 +77,11 @@ class Registry:
     def spec_fn(self, name: str, params: list[str], expr: str) -> None:
         self.spec_fns[name] = (params, expr)
 
-    def opaque_class(self, name: str, fields: dict[str, str]) -> None:
-        """A class from a dependency (e.g. an ANTLR context) known only by the typed fields the verified code reads."""
+    def opaque_class(self, name: str, fields: dict[str, str], methods: dict[str, str] | None = None) -> None:
+        """A class from a dependency (e.g. an ANTLR context) known only by the typed fields the verified code reads and
+        by side-effect free accessor methods whose results are unconstrained values of the given type."""
         self.opaque_classes[name] = fields
+        self.opaque_methods[name] = methods or {}
         for f, t in fields.items():
             self.field_types[f"{name}.{f}"] = t
 
